@@ -486,7 +486,9 @@ async def restart_case(backend, seed, counters, nevents=120, during_burst=False)
         for ev in evs:
             await pub.send(["EVENT", ev])
         if during_burst:
-            await asyncio.sleep(r.random() * 0.3)
+            # somewhere inside the burst: after a seeded share of the acknowledgements has arrived
+            want = max(5, int(nevents * r.choice([0.05, 0.2, 0.5, 0.8])))
+            await pub.wait_for(lambda fr: sum(1 for m in fr if isinstance(m, list) and m[:1] == ["OK"]) >= want, timeout=60)
         else:
             await pub.wait_for(lambda fr: sum(1 for m in fr if isinstance(m, list) and m[:1] == ["OK"]) >= nevents, timeout=120)
         t0 = time.time()
